@@ -35,6 +35,19 @@ Proof.
 Qed.
 Print Assumptions C08_objectpath_new.
 
+(* every public constructor of the wrapper (ObjectPath::new, TryFrom<&str>, TryFrom<String>) accepts exactly the
+   valid paths and keeps the string *)
+Corollary C08_objectpath_ctors : forall f s p, objectpath_ctor f -> (f s = Ok p <-> (ValidPath s /\ p = s)).
+Proof. exact objectpath_ctor_spec. Qed.
+Print Assumptions C08_objectpath_ctors.
+
+(* hence the typed Marshal impl for ObjectPath, which does not validate again, only ever writes valid paths:
+   a wrapper obtained from any constructor (and its to_owned copy) marshals, and what is written is the valid path *)
+Corollary C08_typed_path_wire : forall f s p, objectpath_ctor f -> f s = Ok p ->
+  marshal_objectpath_typed p = Ok s /\ marshal_objectpath_typed (objectpath_to_owned p) = Ok s /\ ValidPath s.
+Proof. exact typed_path_wire. Qed.
+Print Assumptions C08_typed_path_wire.
+
 (* none of them can panic or diverge in the model: the result is Ok or Err, whatever the string *)
 Theorem C08_total : forall s,
   ok_or_err (validate_object_path s) /\ ok_or_err (validate_interface s) /\ ok_or_err (validate_errorname s) /\
